@@ -635,12 +635,9 @@ class Ctx:
     except NotImplementedError:
       p2, pre = p, self.assume + self.side
     self.fold_stats['queries'] += 1
-    if lemma_unsat(list(pre) + [p2], self.lemma_timeout):
-      res = False
-    else:
-      self.fold_stats['queries'] += 1
-      if lemma_unsat(list(pre) + [z3.Not(p2)], self.lemma_timeout):
-        res = True
+    r_ = fold_query(pre, p2, self.lemma_timeout)
+    if r_ is not None:
+      res = r_
     if isc(res):
       self.fold_stats['folded'] += 1
     self.fold_stats['time'] += time.time() - t0
@@ -653,7 +650,45 @@ class Ctx:
 _LEMMA_WORKER = [None]
 
 
-def lemma_unsat(formulas, timeout_ms):
+def fold_query(pre, p, timeout_ms):
+  """decide the guard p under the assumptions pre in the killable worker: True / False / None (undecided).  One request, both polarities, same
+  solver sequence (push / check / pop / check) as the original in-process folding; the worker is killed if it overruns 2 * timeout + grace."""
+  from . import solve as _solve
+  fs = [f if not isinstance(f, bool) else z3.BoolVal(f) for f in list(pre) + [p]]
+  if os.environ.get('VERIF_LEMMA_INPROC'):
+    s_ = z3.Solver()
+    s_.set('timeout', int(timeout_ms))
+    s_.add(fs[:-1])
+    s_.push()
+    s_.add(fs[-1])
+    if s_.check() == z3.unsat:
+      return False
+    s_.pop()
+    s_.add(z3.Not(fs[-1]))
+    return True if s_.check() == z3.unsat else None
+  ctx = z3.main_ctx()
+  n = len(fs) - 1
+  arr = (z3.Ast * max(n, 1))()
+  for i in range(n):
+    arr[i] = fs[i].as_ast()
+  smt2 = z3.Z3_benchmark_to_smtlib_string(ctx.ref(), 'fold', '', 'unknown', '', n, arr, fs[-1].as_ast())
+  os.makedirs(_solve.SCRATCH, exist_ok=True)
+  fd, path = tempfile.mkstemp(suffix='.smt2', prefix='fold', dir=_solve.SCRATCH)
+  try:
+    with os.fdopen(fd, 'w') as f:
+      f.write(smt2)
+    if _LEMMA_WORKER[0] is None:
+      _LEMMA_WORKER[0] = _solve._Worker()
+    r = _LEMMA_WORKER[0].solve(path, max(timeout_ms / 1000.0, 0.05), None, grace=max(timeout_ms / 1000.0, 0.05) + 2.0, mode='fold')
+  finally:
+    try:
+      os.unlink(path)
+    except OSError:
+      pass
+  return {'true': True, 'false': False}.get(r.get('status'))
+
+
+def lemma_unsat(formulas, timeout_ms, incremental=False):
   """True iff the conjunction of `formulas` is shown unsat within the timeout.  Solved in a worker subprocess that is KILLED when it overruns
   (in-process nlsat can ignore its timeout for minutes); anything but a clean `unsat` answer counts as not shown."""
   from . import solve as _solve
@@ -662,6 +697,13 @@ def lemma_unsat(formulas, timeout_ms):
     return True
   if not fs:
     return False
+  if os.environ.get('VERIF_LEMMA_INPROC'):      # debugging aid only: the in-process solver can ignore its timeout
+    s_ = z3.Solver()
+    s_.set('timeout', int(timeout_ms))
+    s_.add(fs)
+    if incremental:
+      s_.push()
+    return s_.check() == z3.unsat
   ctx = z3.main_ctx()
   n = len(fs) - 1
   arr = (z3.Ast * max(n, 1))()
@@ -675,7 +717,7 @@ def lemma_unsat(formulas, timeout_ms):
       f.write(smt2)
     if _LEMMA_WORKER[0] is None:
       _LEMMA_WORKER[0] = _solve._Worker()
-    r = _LEMMA_WORKER[0].solve(path, max(timeout_ms / 1000.0, 0.05), None, grace=2.0)
+    r = _LEMMA_WORKER[0].solve(path, max(timeout_ms / 1000.0, 0.05), None, grace=2.0, incremental=incremental)
   finally:
     try:
       os.unlink(path)
